@@ -3,7 +3,7 @@ import copy, itertools, math, warnings
 from fractions import Fraction
 import numpy as np
 import core, gen
-from core import da, Axis, DimArray, Dataset
+from core import da, Axis, DimArray, Dataset, Axes
 from .base import Prop
 from .c06 import lab_key
 
@@ -31,7 +31,11 @@ def dyadic_axis(rng, name, n, order, kind):
     return {"name": name, "kind": kind, "labels": [gen.enc(v) for v in vals], "_order": order}
 
 
-def new_points(rng, ax):
+def new_points(rng, ax, ints=False):
+    if ints:
+        # integer coordinates (an int array / list of ints as `values`): still below, on, between and above the labels
+        pts = [Fraction(math.floor(Fraction(l[1], l[2]))) for l in new_points(rng, ax)]
+        return [gen.enc(p) for p in pts]
     xs = sorted(Fraction(l[1], l[2]) for l in ax["labels"])
     lo, hi = xs[0], xs[-1]
     pts = []
@@ -59,10 +63,13 @@ class C18(Prop):
     id = "C18"
     theorems = ["interpAt_node", "interpAt_left", "interpAt_right", "interpAt_between", "interpAxis_axes"]
     rule = ("float/int arrays of rank 1-4 with numeric axis labels stored increasing / decreasing / shuffled (power-of-two "
-            "gaps and dyadic values so that every float operation is exact), every numeric axis by name or position, new "
-            "coordinate vectors (sorted or not) with points below, on, between and above the labels, left/right fills "
-            "(default NaN and explicit), single-label axes; interp_like and Dataset.interp_axis (variables partly lacking "
-            "the axis) against the per-variable 1-D definition. Non-trivial = axis of at least 2 labels; distinct = canonical JSON")
+            "gaps and dyadic values so that every float operation is exact), every numeric axis by name, position, negative "
+            "position or left out (first axis), new coordinate vectors (sorted or not, ndarray / list / Axis, float or int, "
+            "empty) with points below, on, between and above the labels, left/right fills (default NaN, both, only left, "
+            "only right), issorted None / True (True only where the labels are stored increasing), single-label axes; "
+            "interp_like (DimArray or Axes template, one or two shared axes), Dataset.interp_axis (axis by name / position / "
+            "negative position, variables partly lacking the axis) and Dataset.interp_like (DimArray / Axes / Dataset "
+            "template) against the per-variable 1-D definition. Non-trivial = axis of at least 2 labels; distinct = canonical JSON")
     assumptions = ["PARTIAL: floating-point rounding inside np.interp and in the fractional weights is not modelled; the "
                    "primary stream keeps all float operations exact, values compared after rounding to 11 significant digits"]
 
@@ -75,13 +82,13 @@ class C18(Prop):
                 "interp_like": t.interp_like, "Dataset.interp_axis": d.Dataset.interp_axis}
 
     def gen(self, rng, tier):
-        n = 800 if tier == "quick" else 20000
+        n = 1000 if tier == "quick" else 24000
         for _ in range(n):
             rank = rng.choice([1, 1, 2, 2, 3, 4])
             arr = gen.rand_array(rng, rank=rank, maxn=3, minn=1)
             d = rng.randrange(rank)
             nlab = rng.choice([1, 2, 3, 4, 5])
-            arr["axes"][d] = dyadic_axis(rng, arr["axes"][d]["name"], nlab, rng.choice(["inc", "dec", "shuf"]), rng.choice(["f", "f", "i"]))
+            arr["axes"][d] = dyadic_axis(rng, arr["axes"][d]["name"], nlab, rng.choice(["inc", "inc", "dec", "shuf"]), rng.choice(["f", "f", "i"]))
             arr["vkind"] = rng.choice(["f", "f", "i"])
             if rng.random() < 0.4:
                 arr["attrs_py"] = {"units": "K"}
@@ -91,16 +98,41 @@ class C18(Prop):
                     size *= len(a_["labels"])
                 arr["nan_cells"] = sorted(rng.sample(range(size), min(size, rng.randint(1, 2))))
             names = [a["name"] for a in arr["axes"]]
-            fills = rng.choice([None, None, [5.0, 7.0], [0.0, 0.0]])
+            fills = rng.choice([None, None, [5.0, 7.0], [0.0, 0.0], [5.0, None], [None, 7.0]])
             r = rng.random()
-            op = "interp" if r < 0.7 else ("dataset" if r < 0.85 else "like")
-            c = {"op": op, "array": arr, "axis": rng.choice([["name", names[d]], ["pos", d]]), "labels": new_points(rng, arr["axes"][d]),
-                 "fills": fills, "_d": d}
+            op = "interp" if r < 0.62 else ("dataset" if r < 0.77 else ("like" if r < 0.92 else "dataset_like"))
+            axk = rng.choice([["name", names[d]], ["pos", d], ["pos", d - rank]])
+            if d == 0 and rng.random() < 0.15:
+                axk = ["default"]               # axis= left out: the first dimension
+            c = {"op": op, "array": arr, "axis": axk, "fills": fills, "_d": d}
+            q = rng.random()
+            if q < 0.15:
+                c["newkind"] = "i"              # integer coordinates: an int array or a list of python ints
+                c["labels"] = new_points(rng, arr["axes"][d], ints=True)
+                c["valform"] = rng.choice(["array", "list", "axis"])
+            elif q < 0.2:
+                c["labels"] = []                # no new coordinate at all: an empty axis
+                c["valform"] = rng.choice(["array", "list"])
+            else:
+                c["labels"] = new_points(rng, arr["axes"][d])
+                c["valform"] = rng.choice(["array", "array", "list", "axis"])
+            if is_sorted(arr["axes"][d]) and rng.random() < 0.5:
+                c["issorted"] = True            # only where the labels are stored in increasing order: same result
+            if op in ("like", "dataset_like"):
+                c["valform"] = "array"          # the coordinates come with the template
+            if op == "like":
+                c["tmpl"] = rng.choice(["dimarray", "axes"])
             if op == "like" and rank >= 2 and rng.random() < 0.6:
                 # the template shares a second numeric axis with the array: both are interpolated, one after the other
                 d2 = rng.choice([x for x in range(rank) if x != d])
                 arr["axes"][d2] = dyadic_axis(rng, arr["axes"][d2]["name"], rng.choice([2, 3, 4]), rng.choice(["inc", "dec", "shuf"]), "f")
                 c["op"], c["_d2"], c["labels2"] = "like2", d2, new_points(rng, arr["axes"][d2])
+                if c.get("issorted") and not is_sorted(arr["axes"][d2]):
+                    del c["issorted"]
+            if op == "dataset":
+                c["ds_axis"] = rng.choice(["name", "name", "pos", "negpos"])
+            if op == "dataset_like":
+                c["tmpl"] = rng.choice(["dimarray", "axes", "dataset"])
             yield c
 
     def build(self, c):
@@ -119,44 +151,73 @@ class C18(Prop):
         toks = core.AttrTokens()
         a = self.build(c)
         before = core.obs_array(a, toks)
-        newv = core.label_array(c["labels"], "f")
-        kw = {} if c["fills"] is None else {"left": c["fills"][0], "right": c["fills"][1]}
-        axk = c["axis"][1]
+        kind = c.get("newkind", "f")
+        plain = core.label_array(c["labels"], kind)         # the canonical spelling of `values`: an ndarray
+        newv = plain
+        if c.get("valform") == "list":
+            newv = [core.dec_label(l, kind) for l in c["labels"]]
+        elif c.get("valform") == "axis":
+            newv = Axis(plain, a.dims[c["_d"]])
+        kw0 = {}
+        if c["fills"] is not None:
+            for k, v in zip(("left", "right"), c["fills"]):
+                if v is not None:
+                    kw0[k] = v
+        kw = dict(kw0)
+        if c.get("issorted"):
+            kw["issorted"] = True
+        axkw = {} if c["axis"][0] == "default" else {"axis": c["axis"][1]}
+
+        def template(axes):
+            if c.get("tmpl") == "axes":
+                return Axes(axes)
+            t = DimArray(np.zeros(tuple(ax.size for ax in axes)), axes=axes)
+            return Dataset({"v": t}) if c.get("tmpl") == "dataset" else t
 
         def run():
             with warnings.catch_warnings():
                 warnings.simplefilter("ignore")
                 if c["op"] == "interp":
-                    return core.obs_array(a.interp_axis(newv, axis=axk, **kw), toks)
+                    return core.obs_array(a.interp_axis(newv, **axkw, **kw), toks)
                 if c["op"] == "like2":
                     n1, n2 = a.dims[c["_d"]], a.dims[c["_d2"]]
                     new2 = core.label_array(c["labels2"], "f")
-                    tmpl = DimArray(np.zeros((len(newv), len(new2))), axes=[Axis(newv, n1), Axis(new2, n2)])
+                    tmpl = template([Axis(plain, n1), Axis(new2, n2)])
                     got = core.obs_array(a.interp_like(tmpl, **kw), toks)
                     # one axis after the other; the order is not part of the statement (it only matters where both
                     # coordinates are out of range and the fills differ): either order is accepted
-                    got["_seq"] = core.obs_array(a.interp_axis(newv, axis=n1, **kw).interp_axis(new2, axis=n2, **kw), toks)
-                    got["_seq2"] = core.obs_array(a.interp_axis(new2, axis=n2, **kw).interp_axis(newv, axis=n1, **kw), toks)
+                    got["_seq"] = core.obs_array(a.interp_axis(plain, axis=n1, **kw0).interp_axis(new2, axis=n2, **kw0), toks)
+                    got["_seq2"] = core.obs_array(a.interp_axis(new2, axis=n2, **kw0).interp_axis(plain, axis=n1, **kw0), toks)
                     return got
                 if c["op"] == "like":
                     name = a.dims[c["_d"]]
-                    tmpl = DimArray(np.zeros(len(newv)), axes=[Axis(newv, name)])
-                    return core.obs_array(a.interp_like(tmpl, **kw), toks)
+                    return core.obs_array(a.interp_like(template([Axis(plain, name)]), **kw), toks)
                 # Dataset: one variable with the axis, one without, one 1-D along it
                 name = a.dims[c["_d"]]
                 other = DimArray(np.array([1.0, 2.0]), axes=[Axis(np.array([0, 1]), "q")])
+                other.attrs["long_name"] = "O"
                 line = a
                 for dname in [x for x in a.dims if x != name]:
                     line = line.take(0, axis=dname, indexing="position")
-                ds = Dataset({"full": a, "other": other, "line": line if isinstance(line, DimArray) else a})
+                line = line if isinstance(line, DimArray) else a
+                ds = Dataset({"full": a, "other": other, "line": line})
                 ds.attrs["title"] = "T"
-                r = ds.interp_axis(newv, axis=name, **kw)
+                if c["op"] == "dataset":
+                    dsdims = list(ds.dims)
+                    how = c.get("ds_axis", "name")
+                    axd = name if how == "name" else (dsdims.index(name) if how == "pos" else dsdims.index(name) - len(dsdims))
+                    r = ds.interp_axis(newv, axis=axd, **kw)
+                else:
+                    # the template also carries an axis that the Dataset does not have: nothing to do along it
+                    r = ds.interp_like(template([Axis(plain, name), Axis(np.array([1.0, 2.0, 3.0]), "unrelated")]), **kw)
                 out = {k: core.obs_array(r[k], toks) for k in r.keys()}
+                out["_keys"] = list(r.keys())
                 out["_attrs"] = dict(r.attrs)
                 out["_shared"] = all(any(ax is dax for dax in r.axes) for k in r.keys() for ax in r[k].axes)
-                out["_expect"] = {"full": core.obs_array(a.interp_axis(newv, axis=name, **kw), toks),
+                # the per-variable definition, in the canonical spelling (ndarray coordinates, axis by name, no issorted)
+                out["_expect"] = {"full": core.obs_array(a.interp_axis(plain, axis=name, **kw0), toks),
                                   "other": core.obs_array(other, toks),
-                                  "line": core.obs_array((line if isinstance(line, DimArray) else a).interp_axis(newv, axis=name, **kw), toks)}
+                                  "line": core.obs_array(line.interp_axis(plain, axis=name, **kw0), toks)}
                 return out
         out = core.guarded(run)
         out["input"] = before
@@ -166,14 +227,17 @@ class C18(Prop):
 
     def request(self, c):
         toks = core.AttrTokens()
-        return {"op": "transform", "fn": "interp", "arrays": [core.lean_array(gen.clean(c["array"]), toks)], "axis": c["axis"],
-                "labels": c["labels"], "newkind": "f"}
+        # issorted=True on a sorted axis, lists / Axis objects as coordinates, a left-out axis and one-sided fills are other
+        # spellings of what the mirror models
+        return {"op": "transform", "fn": "interp", "arrays": [core.lean_array(gen.clean(c["array"]), toks)],
+                "axis": ["pos", 0] if c["axis"][0] == "default" else c["axis"],
+                "labels": c["labels"], "newkind": c.get("newkind", "f")}
 
     def judge(self, c, io, ans):
         lean = ans["lib"]
         bad, prop_bad = [], []
         a = self.build(c)
-        left, right = (np.nan, np.nan) if c["fills"] is None else c["fills"]
+        left, right = (np.nan, np.nan) if c["fills"] is None else [np.nan if v is None else v for v in c["fills"]]
         if c["op"] == "like2":
             if "ok" in io:
                 got = dict(io["ok"])
@@ -195,17 +259,26 @@ class C18(Prop):
             if io.get("operand_modified"):
                 prop_bad.append("operand_modified")
             return None if not prop_bad else {"kind": "P", "differs": sorted(set(prop_bad)), "msg": io.get("msg")}
-        if c["op"] == "dataset":
+        if c["op"] in ("dataset", "dataset_like"):
             if "ok" in io:
                 o = io["ok"]
+                if sorted(o.get("_keys", ["full", "other", "line"])) != ["full", "line", "other"]:
+                    prop_bad.append("dataset.keys")
                 for k in ("full", "other", "line"):
+                    if k not in o:
+                        continue
                     got, want = dict(o[k]), dict(o["_expect"][k])
                     got["values"] = [fl(cv(v)) for v in got["values"]]; want["values"] = [fl(cv(v)) for v in want["values"]]
-                    for f in ("dims", "shape", "values"):
+                    for f in ("dims", "shape", "values", "attrs"):
                         if got[f] != want[f]:
                             prop_bad.append("dataset.%s.%s" % (k, f))
                     if [(x["name"], x["labels"]) for x in got["axes"]] != [(x["name"], x["labels"]) for x in want["axes"]]:
                         prop_bad.append("dataset.%s.axes" % k)
+                    if k != "other":
+                        # the interpolated axis is exactly the requested coordinates (whatever the reference says)
+                        for x in got["axes"]:
+                            if x["name"] == io["input"]["dims"][c["_d"]] and [lab_key(l) for l in x["labels"]] != [lab_key(l) for l in c["labels"]]:
+                                prop_bad.append("dataset.%s.axes.labels:new" % k)
                 if o["_attrs"] != {"title": "T"}:
                     prop_bad.append("dataset.attrs")
                 if not o["_shared"]:
@@ -268,8 +341,14 @@ class C18(Prop):
 
     def features(self, c, io):
         ax = c["array"]["axes"][c["_d"]]
+        fills = c["fills"]
+        fk = "none" if fills is None else ("both" if None not in fills else ("left" if fills[1] is None else "right"))
+        k = c["axis"]
         return {"outcome": "err:" + io["err"] if "err" in io else "ok", "op": c["op"], "rank": len(c["array"]["axes"]),
-                "order": ax.get("_order"), "nlab": len(ax["labels"]), "fills": c["fills"] is not None, "vkind": c["array"]["vkind"]}
+                "order": ax.get("_order"), "nlab": len(ax["labels"]), "fills": fk, "vkind": c["array"]["vkind"],
+                "issorted": bool(c.get("issorted")), "valform": c.get("valform", "array"), "newkind": c.get("newkind", "f"),
+                "nnew": min(len(c["labels"]), 3), "tmpl": c.get("tmpl"), "ds_axis": c.get("ds_axis"),
+                "axis_form": k[0] if k[0] != "pos" else ("pos" if k[1] >= 0 else "negpos")}
 
     def size(self, c):
         return sum(len(a["labels"]) for a in c["array"]["axes"]) + len(c["labels"])
@@ -277,6 +356,12 @@ class C18(Prop):
     def snippet(self, c):
         return ("import sys; sys.path.insert(0, '/verif/harness'); import json, core; from props.c18 import PROP; "
                 "case = json.load(open(REPLAY))['case']; print(PROP.impl(case))")
+
+
+def is_sorted(ax):
+    """labels stored in increasing order (where issorted=True may be passed)"""
+    xs = [Fraction(l[1], l[2]) for l in ax["labels"]]
+    return all(x < y for x, y in zip(xs, xs[1:]))
 
 
 def cv(v):
